@@ -257,7 +257,9 @@ fn parent_main<H: Harness>(h: H, a: Args, plan: crate::Plan) -> i32 {
     if jobs.is_empty() {
         die(2, "no jobs");
     }
-    let findings = kf::load(&Path::new(VERIF).join("known_findings.txt")).unwrap_or_else(|e| die(2, &e));
+    // MC_KF: development-only override of the known-findings file (never set by registered commands)
+    let kf_path = std::env::var("MC_KF").map(PathBuf::from).unwrap_or_else(|_| Path::new(VERIF).join("known_findings.txt"));
+    let findings = kf::load(&kf_path).unwrap_or_else(|e| die(2, &e));
     let run_dir = Path::new(VERIF).join("run").join(format!("{}-{}", id, std::process::id()));
     std::fs::create_dir_all(&run_dir).unwrap_or_else(|e| die(2, &format!("cannot create {}: {}", run_dir.display(), e)));
     let ctl_path = run_dir.join("ctl");
